@@ -167,7 +167,8 @@ DSum5 == [t |-> "DSum", dstart |-> D(72, 5)]          \* DSum(total=5)
 MeanO(inner, poe, opt) == [t |-> "Mean", inner |-> inner, poe |-> poe, opt |-> opt]
 MeanK(inner, poe) == MeanO(inner, poe, "")
 \* Mean.inner: "py" (no sum_seq), "DSum" / "Sum" (sum_seq = DSum() / Sum()), "Sum2" (sum_seq yields two
-\* values: Split([Sum(), Sum()]); all are yielded, only the first is divided; such a Mean has a reset that
+\* values: Split([Sum(), Count()]): the sum, then the count with Count's context merged into the yielded
+\* context; all are yielded, only the first is divided; such a Mean has a reset that
 \* raises LenaAttributeError), "Count" (sum_seq = Count(): a sum_seq whose result carries a context, which
 \* is merged into the yielded context; the "sum" is the number of values)
 VMCo(corr, poe, given, opt) == [t |-> "VMC", corr |-> corr, poe |-> poe, given |-> given, opt |-> opt]
@@ -206,7 +207,7 @@ AllKinds == {Count0, Count2, Sum0, Sum5, DSumK,
              SumO(5, "half"), VMCo(FALSE, FALSE, FALSE, "half"), MeanK("Count", FALSE),
              VecW(<<Sum0, Sum0>>, "dim", "tuple", "num2", "wrap"),
              VecOf(<<Store(FALSE), Sum0>>, "list", "add", "num2"),
-             GroupByO("a", "dep"), StoreO(FALSE, "odd"),
+             GroupByO("a", "dep"), StoreO(FALSE, "odd"), CountO("count", 0, "odd"),
              Store(TRUE), Store(FALSE), GroupByK("all"), GroupByK("a"),
              Hist("plain"), Hist("bins"), Hist("make"), Hist("iv"), Hist2,
              GraphK(None, TRUE), GraphK(None, FALSE), GraphK(2, TRUE)}
@@ -219,7 +220,7 @@ MoreKinds == {VecOf(<<Sum0, Store(FALSE)>>, "list", "tuple", "num2"),
               VecOf(<<MeanK("py", TRUE), MeanK("py", TRUE), MeanK("py", TRUE)>>, "dim", "tuple", "num3"),
               MeanK("Sum", TRUE), MeanK("Sum2", FALSE), VMCg(FALSE, TRUE, TRUE),
               MeanO("py", FALSE, "half"), VMCo(TRUE, FALSE, FALSE, "half"), MeanK("Count", TRUE),
-              CountO("count", 0, "odd"), GroupByO("a", "odd"), GroupByO("all", "dep"), StoreO(TRUE, "odd"),
+              GroupByO("a", "odd"), GroupByO("all", "dep"), StoreO(TRUE, "odd"),
               VecW(<<MeanK("py", TRUE), Store(FALSE)>>, "list", "tuple", "num2", "wrap"),
               VecOf(<<Sum0, Sum0>>, "dim", "add", "num2"),
               GraphI(2, FALSE, <<<<1, 7>>, <<0, 3>>>>, CS)}
@@ -293,7 +294,7 @@ Result(k, s) ==
          ELSE Ok(<<Out([s |-> IF k.inner = "DSum" THEN PolySeq(s.sum) ELSE s.sum, n |-> s.count],
                        \* update_recursively(context, context of the sum): Count brings its key
                        IF k.inner = "Count" THEN Put(s.ctx, "count", s.sum) ELSE s.ctx)>>
-                 \o (IF k.inner = "Sum2" THEN <<Out(s.sum, s.ctx)>> ELSE <<>>))
+                 \o (IF k.inner = "Sum2" THEN <<V(s.count, Put(s.ctx, "count", s.count))>> ELSE <<>>))
     [] k.t = "VMC" ->
          IF s.count = 0 THEN (IF k.poe THEN Ok(<<>>) ELSE ZeroDiv)
          ELSE IF k.corr /\ s.count = 1 THEN ZeroDiv
@@ -358,7 +359,7 @@ Expected(k, fs) ==
          ELSE Ok(<<Out([s |-> IF k.inner = "DSum" THEN PolySeq(PolySum(ds))
                                 ELSE IF k.inner = "Count" THEN n ELSE SumSeq(ds), n |-> n],
                        IF k.inner = "Count" THEN Put(c, "count", n) ELSE c)>>
-                 \o (IF k.inner = "Sum2" THEN <<Out(SumSeq(ds), c)>> ELSE <<>>))
+                 \o (IF k.inner = "Sum2" THEN <<V(n, Put(c, "count", n))>> ELSE <<>>))
     [] k.t = "VMC" ->
          IF n = 0 THEN (IF k.poe THEN Ok(<<>>) ELSE ZeroDiv)
          ELSE IF k.corr /\ n = 1 THEN ZeroDiv
@@ -440,7 +441,7 @@ FreshEquiv == st = Replay(ekind, InitState(ekind), since)
 ResetIsFresh == [][op' = "reset" => st' = InitState(FreshKind(kind))]_vars
 \* result context = context of the last filled value, extended only by the element's own keys
 OwnKeys(k) == CASE k.t = "Count" -> {k.name} [] k.t = "Graph" -> {"scale", "dim"}
-                [] k.t = "Mean" /\ k.inner = "Count" -> {"count"}       \* the context of the sum_seq's result
+                [] k.t = "Mean" /\ k.inner \in {"Count", "Sum2"} -> {"count"}   \* contexts of the sum_seq's results
                 [] OTHER -> {}
 ContextOfLast ==
   (op = "compute" /\ res.ok /\ ekind.t \notin {"Store", "GroupBy"}) =>
